@@ -103,7 +103,17 @@ def run_check(family, pid: str, tier: str, seed: int) -> int:
             if not model_ok_for_cases:
                 ctx.build_log += '\n--- model targets ---\n' + mlog
         if tr_fail:
-            model_ok_for_cases = False
+            # the model of the code as it was (the pinned snapshot, about which the theorems were proved) stays executable: the
+            # correspondence / search below then looks for an input on which the current implementation departs from it
+            import shutil
+            for m, e in tr_fail.items():
+                src = os.path.join(coq.SRC, 'Gen', e.get('out', '?'))
+                if os.path.exists(src):
+                    shutil.copyfile(src, os.path.join(coq.BCOQ, 'Gen', e['out']))
+            model_ok_for_cases, mlog = coq.make([t + 'o' for t in family.model_targets], timeout=900)
+            ctx.model_is_pinned = True
+            if not model_ok_for_cases:
+                ctx.build_log += '\n--- pinned model targets ---\n' + mlog
     obl_files = [d for d in deps if d.startswith(('Thm/', 'Props/', 'Sem/', 'Py/', 'Lint/'))]
     n_obl, obl_names = coq.count_obligations(obl_files)
     def built(f):
